@@ -51,6 +51,82 @@ def pev(c, x):
     return r
 
 
+def native_pw_check(e, kind, k, n, segs, kx, ky, indefinite=False):
+    """Run the real Piecewise<..>::integral / indefinite and check C11's concrete statement.
+    segs: [(end, [piece numbers])]; kind 'P' (PolyK) or 'LP' (Log<PolyK>).  Returns list of messages."""
+    import mpmath
+    from fractions import Fraction
+    mpmath.mp.dps = 50
+    tag = "%s%d" % (kind, k)
+    out_tag = ("P%d" % (k + 1)) if kind == "P" else ("ILP4" if k == 4 else "IL%d" % k)
+    flat = []
+    for (en, cs) in segs:
+        flat += [en] + list(cs)
+    req = ("pwindef" if indefinite else "pwinteg", "%sx%d" % (tag, n), flat + ([] if indefinite else [kx, ky]))
+    msgs = []
+    for prof in ("dev", "release"):
+        o = e.native.run([req], prof)[0]
+        if isinstance(o, str):
+            msgs.append("%s build: %s" % (prof, o))
+            continue
+        w = 1 + api.type_len(out_tag)
+        if len(o) != n * w:
+            msgs.append("%s build: result has %d numbers, expected %d pieces" % (prof, len(o), n))
+            continue
+        F = [(o[i * w], o[i * w + 1:(i + 1) * w]) for i in range(n)]
+
+        def ev(i, t):
+            r = e.native.run([("eval", out_tag, list(F[i][1]) + [t])], prof)[0]
+            return r[0]
+        scale = 1.0 + abs(ky) + max(abs(x) for (_, cs) in segs for x in cs)
+        for i in range(n):
+            if F[i][0] != segs[i][0]:
+                msgs.append("%s build: breakpoint %d changed: %r -> %r" % (prof, i, segs[i][0], F[i][0]))
+        if not indefinite:
+            v0 = ev(0, kx)
+            if not abs(v0 - ky) <= 1e-9 * (scale + abs(v0)):
+                msgs.append("%s build: first piece does not pass through k0=(%r,%r): F(k0.x)=%r" % (prof, kx, ky, v0))
+        for i in range(1, n):
+            b = segs[i - 1][0]
+            l, r = ev(i - 1, b), ev(i, b)
+            if not abs(l - r) <= 1e-9 * (scale + abs(l) + abs(r)):
+                msgs.append("%s build: pieces %d and %d disagree at breakpoint %r: %r vs %r" % (prof, i - 1, i, b, l, r))
+        # antiderivative of the corresponding piece: F_i(b)-F_i(a) against the exact integral of piece i over [a,b]
+        for i in range(n):
+            cs = segs[i][1]
+            a_, b_ = (1.25, 2.75) if kind == "LP" else (-0.5, 1.5)
+            got = mpmath.mpf(ev(i, b_)) - mpmath.mpf(ev(i, a_))
+            if kind == "P":
+                exact = sum(mpmath.mpf(c) * (mpmath.mpf(b_) ** (j + 1) - mpmath.mpf(a_) ** (j + 1)) / (j + 1) for j, c in enumerate(cs))
+            else:
+                exact = mpmath.quad(lambda t: sum(mpmath.mpf(c) * mpmath.log(t) ** j for j, c in enumerate(cs)), [a_, b_])
+            if not abs(got - exact) <= mpmath.mpf(10) ** -9 * (scale + abs(exact)):
+                msgs.append("%s build: piece %d is not an antiderivative of the corresponding piece: F(%r)-F(%r)=%s, exact integral %s" % (
+                    prof, i, b_, a_, mpmath.nstr(got, 15), mpmath.nstr(exact, 15)))
+    return msgs
+
+
+def make_pw_replay(e, kind, k, n, names, rs, indefinite=False):
+    def replay(model, ob):
+        vals = {nm: model_value(model, rs[nm]) for nm in names}
+        vals = {nm: (0.0 if v is None else float(v)) for nm, v in vals.items()}
+        pre = "f" if kind == "P" else "p"
+        segs = [(vals["e%d" % i], [vals["%s%d_%d" % (pre, i, j)] for j in range(k + 1)]) for i in range(n)]
+        kx, ky = vals.get("kx", 1.0), vals.get("ky", 0.0)
+        if kind == "LP":
+            # logs need positive, increasing breakpoints and knot; ln is a free symbol in the query, so re-place them
+            segs = [(2.0 + i, cs) for i, (en, cs) in enumerate(segs)]
+            kx = 1.5
+        path = e.write_replay(ob.name, {"kind": "E2-native-pwinteg", "piece": "%s%d" % (kind, k), "segments": segs, "kx": kx, "ky": ky,
+                                        "indefinite": indefinite,
+                                        "statement": "same breakpoints, first piece through k0, continuous at interior breakpoints, each piece an antiderivative"})
+        msgs = native_pw_check(e, kind, k, n, segs, kx, ky, indefinite)
+        if msgs:
+            return True, path, "; ".join(msgs[:2])
+        return False, path, "model does not violate the statement natively"
+    return replay
+
+
 def e2_poly(e, n, k, indefinite=False):
     ty = "W%d:P%d" % (n, k)
     label = "Piecewise<Poly%d>[n=%d].%s" % (k, n, "indefinite()" if indefinite else "integral(k0)")
@@ -96,7 +172,9 @@ def e2_poly(e, n, k, indefinite=False):
                  "con": "adjacent pieces agree in value at the interior breakpoint (%s)", "fir": "first piece's additive constant is zero (%s)",
                  "thr": "first piece passes through k0 (%s)", "sha": "same number of pieces (%s)"}[nm[:3]] % nm +
                 " -- exact arithmetic, all real coefficients, breakpoints and knots", list(p.side), g, dom_name="real", functions=funcs,
-                witness_terms=wt, role="pw-integral-" + re.sub(r"[@\d]+$", "", nm))
+                witness_terms=wt, role="pw-integral-" + re.sub(r"[@\d]+$", "", nm),
+                replay=make_pw_replay(e, "P", k, n, names, rs, indefinite),
+                prefer=[z3.And(v >= -3, v <= 3) for v in rs.values()])
 
 
 def e2_log(e, n, k):
@@ -153,7 +231,9 @@ def e2_log(e, n, k):
                 {"thr": "first piece passes through k0", "con": "adjacent pieces agree at the interior breakpoint",
                  "ant": "piece differs from the textbook antiderivative of the corresponding piece by a constant"}[nm[:3]] +
                 " (%s) -- exact arithmetic, ln a free real per point" % nm, [fs[0]], fs[1], dom_name="real", functions=funcs,
-                witness_terms={"kx": rs["kx"], "ky": rs["ky"]}, role="pw-log-integral-" + re.sub(r"[@\d]+$", "", nm))
+                witness_terms={"kx": rs["kx"], "ky": rs["ky"]}, role="pw-log-integral-" + re.sub(r"[@\d]+$", "", nm),
+                replay=make_pw_replay(e, "LP", k, n, names, rs),
+                prefer=[z3.And(rs[nm_] >= -3, rs[nm_] <= 3) for nm_ in names if nm_.startswith("p") or nm_ == "ky"])
 
 
 def run(rep, tier):
